@@ -277,7 +277,7 @@ Lemma sed_field t p d :
   schema_extract_description (field_schema t p d) = (d, member_schema t p).
 Proof.
   destruct t as [ty nm]. unfold field_schema, member_schema, scalar_sobj. cbn [st_ty st_name].
-  destruct ty as [| | |sg bits|vs]; destruct nm as [n|]; destruct p as [| |dv]; destruct d as [d|];
+  destruct ty as [| | |sg bits|vs|]; destruct nm as [n|]; destruct p as [| |dv]; destruct d as [d|];
     try destruct sg; reflexivity.
 Qed.
 
@@ -306,6 +306,8 @@ Definition member_oschema (t : sty') (p : presence) : oschema :=
   | TInt sg bits, _ => OItem (sdata_nullable nl) (KType (OTInteger (oint sg bits)))
   | TEnum vs, None =>
       OItem (sdata_nullable nl) (KType (OTString (mkOString VEmpty None (map Some vs) None None)))
+  | TUuid, _ =>
+      OItem (sdata_nullable nl) (KType (OTString (mkOString (VUnknown S_UUID) None [] None None)))
   end.
 
 Lemma map_res_strs vs : map_res enum_str (map JStr vs) = Ok (map Some vs).
@@ -320,7 +322,7 @@ Proof. unfold enum_list. apply map_res_strs. Qed.
 Lemma j2oas_member t p : j2oas None (member_schema t p) = Ok (member_oschema t p).
 Proof.
   destruct t as [ty nm]. unfold member_schema, member_oschema, scalar_sobj. cbn [st_ty st_name].
-  destruct ty as [| | |sg bits|vs]; destruct nm as [n|]; destruct p as [| |dv];
+  destruct ty as [| | |sg bits|vs|]; destruct nm as [n|]; destruct p as [| |dv];
     try destruct sg; try reflexivity;
     cbn -[enum_list]; rewrite enum_list_strs; reflexivity.
 Qed.
@@ -491,6 +493,14 @@ Proof.
     destruct sg; vm_compute; reflexivity.
 Qed.
 
+Lemma int_format_not_uuid sg bits :
+  width_ok bits = true -> str_eqb (int_format_name sg bits) S_UUID = false.
+Proof.
+  unfold width_ok. intros H.
+  repeat (apply orb_true_iff in H as [H|H]); apply N.eqb_eq in H; subst bits;
+    destruct sg; vm_compute; reflexivity.
+Qed.
+
 Lemma str_chars_cons b t : str_chars (b :: t) = (if is_cont_byte b then 0 else 1) + str_chars t.
 Proof.
   unfold str_chars. cbn [filter]. destruct (is_cont_byte b); cbn [negb length]; lia.
@@ -567,7 +577,7 @@ Theorem doc_value_parses env t p j w :
 Proof.
   destruct t as [ty nm]. unfold wf_st, env_ok, member_oschema. cbn [st_ty st_name].
   intros Hwf Henv Hv Hnn Hw Hu.
-  destruct ty as [| | |sg bits|vs]; destruct nm as [n|]; try discriminate;
+  destruct ty as [| | |sg bits|vs|]; destruct nm as [n|]; try discriminate;
     try (destruct vs; discriminate).
   - (* String *) cbn [parse_scalar]. eauto.
   - (* bool *)
@@ -591,13 +601,26 @@ Proof.
     rewrite vou_int_format in Hv. cbn [optb] in Hv.
     repeat (apply andb_true_iff in Hv as [Hv ?]).
     match goal with H : fmt_doc _ _ = true |- _ => rename H into Hf end.
-    unfold fmt_doc in Hf. rewrite (int_format_range_name sg bits Hwf) in Hf.
+    unfold fmt_doc in Hf.
+    rewrite (int_format_not_uuid sg bits Hwf), (int_format_range_name sg bits Hwf) in Hf.
     cbn [num_q] in Hf. unfold q_leb, q_of_Z in Hf. cbn [fst snd] in Hf.
     assert (Hr : int_in_range sg bits z = true) by (unfold int_in_range; lia).
     cbn [parse_scalar]. rewrite (parse_int_print _ _ _ Hr). cbn. eauto.
   - (* named enum *)
     cbn [valid_oas] in Hv. destruct (Henv j Hv) as (s & -> & Hm).
     cbn [wire_of_json] in Hw. injection Hw as <-. cbn [parse_scalar]. rewrite Hm. eauto.
+  - (* uuid: the documented format is the RFC 4122 text form *)
+    cbn [valid_oas] in Hv. rewrite Hnn, andb_false_r in Hv. cbn [orb valid_okind valid_otype] in Hv.
+    destruct j as [|b|x|s|l|kvs]; try discriminate. cbn [wire_of_json] in Hw. injection Hw as <-.
+    unfold valid_ostring in Hv.
+    cbn [os_max_length os_min_length os_pattern os_format os_enumeration optb SchemaSem.vou_name
+         enum_ok andb] in Hv.
+    rewrite andb_true_r in Hv. unfold fmt_doc in Hv. rewrite str_eqb_refl in Hv.
+    destruct (parse_uuid_hyphenated s) as [bs0|] eqn:Eh; [|discriminate].
+    assert (Hlen : (length s =? 36)%nat = true).
+    { unfold parse_uuid_hyphenated in Eh. destruct (length s =? 36)%nat; [reflexivity|discriminate]. }
+    cbn [parse_scalar]. unfold parse_uuid. apply Nat.eqb_eq in Hlen. rewrite Hlen.
+    cbn [Nat.eqb]. rewrite Eh. cbn. eauto.
 Qed.
 
 (* ------------------------------------------------------------ enum components *)
@@ -638,7 +661,7 @@ Proof.
     + intros s H. destruct (I1 s H) as [(l' & n & vs & Hl & R)|Ha].
       * left. exists l', n, vs. split; [right; exact Hl|exact R].
       * unfold acc' in Ha. unfold leaf_enum.
-        destruct (st_ty (lf_ty l)) as [| | |sg bits|vs] eqn:Et; try (right; exact Ha).
+        destruct (st_ty (lf_ty l)) as [| | |sg bits|vs|] eqn:Et; try (right; exact Ha).
         destruct (st_name (lf_ty l)) as [n|] eqn:En; [|right; exact Ha].
         rewrite assoc_insert_sorted in Ha.
         destruct (str_eqb_spec r (ref_name n)) as [->|Hne]; [|right; exact Ha].
@@ -646,12 +669,12 @@ Proof.
         unfold leaf_enum. rewrite Et, En. auto.
     + intros H. apply I2. destruct H as [H|(l' & n & vs & [<-|Hl] & He & ->)].
       * left. unfold acc'.
-        destruct (st_ty (lf_ty l)) as [| | |sg bits|vs]; try exact H.
+        destruct (st_ty (lf_ty l)) as [| | |sg bits|vs|]; try exact H.
         destruct (st_name (lf_ty l)) as [n|]; [|exact H].
         apply has_key_assoc. rewrite assoc_insert_sorted.
         destruct (str_eqb r (ref_name n)); [eauto|apply has_key_assoc, H].
       * left. unfold acc'. unfold leaf_enum in He.
-        destruct (st_ty (lf_ty l)) as [| | |sg bits|vs']; try discriminate.
+        destruct (st_ty (lf_ty l)) as [| | |sg bits|vs'|]; try discriminate.
         destruct (st_name (lf_ty l)) as [n'|]; [|discriminate]. injection He as -> ->.
         apply has_key_assoc. rewrite assoc_insert_sorted, str_eqb_refl. eauto.
       * right. exists l', n, vs. auto.
@@ -663,9 +686,9 @@ Lemma consistent_enums (L : list leaf) a b n va vb :
 Proof.
   unfold enum_names_consistent, leaf_enum. intros H Ha Hb Ea Eb.
   rewrite forallb_forall in H. specialize (H a Ha). rewrite forallb_forall in H. specialize (H b Hb).
-  destruct (st_ty (lf_ty a)) as [| | |? ?|va']; try discriminate.
+  destruct (st_ty (lf_ty a)) as [| | |? ?|va'|]; try discriminate.
   destruct (st_name (lf_ty a)) as [na|]; [|discriminate]. injection Ea as -> ->.
-  destruct (st_ty (lf_ty b)) as [| | |? ?|vb']; try discriminate.
+  destruct (st_ty (lf_ty b)) as [| | |? ?|vb'|]; try discriminate.
   destruct (st_name (lf_ty b)) as [nb|]; [|discriminate]. injection Eb as -> ->.
   rewrite str_eqb_refl in H. apply (list_eqb_spec str_eqb str_eqb_eq) in H. exact H.
 Qed.
@@ -717,7 +740,7 @@ Theorem components_env_ok fs comps fuel :
     env_ok (J2OasSpec.env_oas pat_doc fmt_doc (S fuel) comps) (lf_ty l).
 Proof.
   intros Hwf Hcomps l Hl. unfold env_ok.
-  destruct (st_ty (lf_ty l)) as [| | |sg bits|vs] eqn:Et; try exact I.
+  destruct (st_ty (lf_ty l)) as [| | |sg bits|vs|] eqn:Et; try exact I.
   destruct (st_name (lf_ty l)) as [n|] eqn:En; [|exact I].
   assert (He : leaf_enum l = Some (n, vs)) by (unfold leaf_enum; rewrite Et, En; reflexivity).
   pose proof (defs_view_lookup fs l n vs Hwf Hl He) as Hd.
